@@ -222,7 +222,15 @@ extern "C" void h_setget(int ver, int skinned, int wrongSize, int nsym) {
 	}
 	// triangles: set, read back, and read back after another save + reload
 	std::vector<Triangle> nt = {Triangle(2, 1, 0), Triangle(1, 2, 3)};
+	if (!skinned) {
+		// an emptied triangle list reads back empty, and can be filled again
+		std::vector<Triangle> none, g0;
+		s->SetTriangles(none);
+		s->GetTriangles(g0);
+		sym_assert(g0.empty() && s->GetNumTriangles() == 0, "C13-settris-empty: GetTriangles does not return the empty list SetTriangles stored");
+	}
 	s->SetTriangles(nt);
+	sym_assert(s->GetNumTriangles() == 2, "C13-settris-count: triangle count after SetTriangles");
 	if (skinned)
 		nif.UpdateSkinPartitions(s); // changing the topology of a skinned shape requires rebuilding its partitions
 	std::vector<Triangle> gt;
